@@ -169,8 +169,58 @@ would not do: the change had to need something specific and unusual):
 | C20-9 | silent | the same failing call made twice on one VM |
 | C20-10 | silent | a const block whose implicitly repeated expression fails at run time |
 
+Fifth round (changes 12-14; the sub-agents were told the titles of the eleven earlier ones of their property).
+41 of 60 were missed by the property's own check at first; C05, C10 and C14 caught all three of theirs:
+
+| change | first result | what was added |
+|---|---|---|
+| C01-13 | silent | generator: a sub-slice of a literal, an append through it that fits, a re-slice up to the capacity |
+| C02-12 | silent | C02: x OP literal / literal OP x / x OP= literal functions per numeric type over boundary operands (the identities a strength reduction would use) |
+| C02-13 | silent | C02: histories in which one VM compiles twice (a later Eval or a second Load declares a constant, function or type again) |
+| C02-14 | silent | C02: untyped constants stored into typed elements, fields and variables through every storage form, read back through type-sensitive arithmetic |
+| C03-12 | silent | C03 trees: an import cycle inside a larger graph with leaf packages, stock packages and packages leading into the cycle |
+| C03-14 | silent | C03: one identifier declared again in 2-40 nested scopes |
+| C04-13 | silent | C04 contexts: containers built by maps.Keys, maps.Clone, slices.Delete and sorted in place |
+| C04-14 | C04 silent (C01 reported it) | C04: the spellings of minus zero (-0.0, -0e0, -(0.0)) and negative float constants in every constant context; this met K08 (0.0 * -1) on the unchanged tree |
+| C06-12 | C06 silent (C01 reported it) | C06 style: a range value variable named like the slice ranged over |
+| C06-13 | C06 silent (C01 reported it) | C06 style: names declared again inside a default clause that the other clauses' tests and bodies use |
+| C06-14 | C06 silent (C01 reported it) | C06 style: case lists of calls that leave a trace (order and number of evaluations) |
+| C07-12 | silent | generator: make(map, hint) |
+| C07-13 | silent | generator: delete on, range over and reads of a nil map |
+| C07-14 | silent | generator: switches with only a default clause and with no clause |
+| C08-13 | C08 silent (C01 reported it) | C08 package family: the imported package assigns to its own variables with = and a parallel assignment |
+| C08-14 | silent | C08: a loop, range, init variable or parameter of type float64 / byte / uint32 / string declared again in the body from a constant of another type |
+| C09-12 | silent | C09: histories of host calls on one VM whose result slices are all read again after every later call |
+| C09-14 | silent | C09: generated callees are now and then methods of *T, called through a global and as method values (variadic tails of every element type) |
+| C11-12 | silent | C11: literals of 13-48 elements |
+| C11-13 | silent | C11: the rows of a slice of slices (made with make, grown from nil, written as a literal of nils) are variables of the history |
+| C11-14 | C11 silent (C07 reported it) | C11: copy's count returned directly from a function |
+| C12-12 | silent | C12 host family: a type gets its first methods from a later Eval, instances made before call them |
+| C12-13 | silent | C12 package family: fields and variables of qualified types defined from float64 / uint8 and of an alias |
+| C12-14 | silent | C12 package family: methods named init |
+| C13-13 | silent | C13: repeated string(b) of one byte slice with writes through it, an alias, copy and append in between |
+| C13-14 | C13 silent (C01, C02 reported it) | C13: byte arithmetic on literal-indexed elements of local strings |
+| C15-12 | silent | C15: excluded files may hold Go the script language does not have (generics, channels, goto) |
+| C15-13 | silent | C15: import paths written as raw strings |
+| C16-12 | silent | C16: three field-less struct types with a method of the same name each |
+| C16-13 | silent | C16: a string constant whose lines look like build constraints (the seeded demo itself is not valid Go: the Go compiler rejects a misplaced //go:build comment) |
+| C17-12 | silent | C17 state: two ints and two floats declared in one var statement |
+| C17-13 | silent | C17 state: a map and a slice that exist but are empty at some reloads |
+| C17-14 | silent | C17: the host spells the package directory in several equivalent ways (./app, app/, app/../app) |
+| C18-12 | silent | C18: a package-level function named print, declared and used |
+| C18-13 | silent | C18: constant blocks that count with iota |
+| C18-14 | silent | C18: a package and a second package that imports it, imported by separate statements |
+| C19-12 | silent | C19 case "struct": NewStruct with and without initialisers next to script-made instances, stores through SetAttr, every instance read back from host and script after every step |
+| C19-13 | silent | C19 case "echo": natives whose results are or overlap the argument slice they were given |
+| C19-14 | C19 silent (C01, C07 reported it) | C19: Call/Func on functions that forward with return f() behind a function literal of another result count |
+| C20-13 | silent | C20: the chain starts in the initialiser of a package variable that follows a method declaration, or in an Eval that declares a method ahead of the call (outermost entry without a function name) |
+| C20-14 | silent | C20: one case in six uses \\r\\n line endings |
+
+A reverse-of-fix mutant of F52 (blank parameters) was also found to be reported by C01 only; C09's
+generated callees now spell unused parameters _ now and then.
+
 While these inputs were added, the strengthened checks met more genuine defects of the pinned tree
-(F44-F52 and K05-K07 in known_findings.json), among them two the C03 sub-agent had noticed on the
+(F44-F52 and K05-K08 in known_findings.json), among them two the C03 sub-agent had noticed on the
 unchanged tree while looking for places to plant its changes.
 """)
 print(open('/verif/seeded/RESULTS.md').read())
